@@ -1052,6 +1052,7 @@ class OdeSystem(object):
                 # smallest one that does
                 while dt != 0 and self.__t[self.counter] + dt == self.__t[self.counter]:
                     dt = dt * 2
+                __step_recorded = True
                 new_dt, (dTime, dState) = self.integrator(self.equ_rhs, self.__t[self.counter], self.__y[self.counter],
                                                            self.constants, timestep=dt)
                 if self.__t[self.counter] + dTime == self.__t[self.counter]:
@@ -1116,7 +1117,10 @@ class OdeSystem(object):
                             # its dense-output piece goes with it
                             while len(self.__sol) > __pre_length:
                                 self.__sol.remove_interpolant(-1 if dTime >= 0 else 0)
+                            __counter_before_landing = self.counter
                             self.integrate(roots[-1])
+                            # (an event on the very start of the step: the landing is a call to the current time and records nothing)
+                            __step_recorded = self.counter > __counter_before_landing
                             self.__int_status = 2
                         else:
                             if self.counter + len(roots) + 1 >= len(self.__y):
@@ -1132,11 +1136,12 @@ class OdeSystem(object):
 
                 steps += 1
                 
-                if not is_final_step:
+                if not is_final_step and __step_recorded:
                     self.dt = new_dt
 
-                for i in callback:
-                    i(self)
+                if __step_recorded:
+                    for i in callback:
+                        i(self)
                 if callback and hasattr(self.integrator, "final_time"):
                     # (a callback may change the constants as well)
                     self.integrator.final_time = None
